@@ -32,10 +32,22 @@ def run(E: Engine, rep: Report, tier: str) -> dict:
     slot = slots[-1]
     ti = arg(slot, 1, "ti")
     where = E.where(mn, slot.node)
-    BUF = "max(Q_ch.phase_jump_time, 2 * Q_ch.rise_time * Q_eom) + Q_lp.fall_time(Q_ch, in_eom_mode=Q_eom) - Q_t0 + Q_ls.tf"
-    full = has(ti, BUF)
+    # 2*rise_time*in_eom_mode (a bool used as a factor) is also written (2*rise_time if in_eom_mode else 0)
+    EOM_TERMS = ("2 * Q_ch.rise_time * Q_eom", "(2 * Q_ch.rise_time if Q_eom else 0)")
+    BUFS = tuple(f"max(Q_ch.phase_jump_time, {t_}) + Q_lp.fall_time(Q_ch, in_eom_mode=Q_eom) - Q_t0 + Q_ls.tf" for t_ in EOM_TERMS)
+
+    def has_buf(t_):
+        for b_ in BUFS:
+            m_ = has(t_, b_)
+            if m_ is not None:
+                return m_
+        return None
+
+    full = has_buf(ti)
     rep.check(has(ti, "Q_ch.phase_jump_time") is not None and has(ti, "max(Q_ch.phase_jump_time, Q__)") is not None, "FLOW", "phase_jump_buffer|phase_jump_time", "phase-jump time is part of the buffer", "the start time of the next pulse no longer includes the channel's phase_jump_time (max(phase_jump_time, ...))", where)
-    m2 = has(ti, "max(Q_ch.phase_jump_time, 2 * Q_ch.rise_time * Q_eom)")
+    m2 = None
+    for t_ in EOM_TERMS:
+        m2 = m2 or has(ti, f"max(Q_ch.phase_jump_time, {t_})")
     rep.check(m2 is not None and is_(m2["Q_eom"], "Q__.in_eom_mode()") is not None, "FLOW", "phase_jump_buffer|2*rise_time-in-eom", "max(phase_jump_time, 2*rise_time*in_eom_mode)", "in EOM mode the buffer no longer enforces at least 2*rise_time (max(phase_jump_time, 2*rise_time*in_eom_mode()) not found in the start time)", where)
     m3 = has(ti, "max(Q_ch.phase_jump_time, Q__) + Q_lp.fall_time(Q_ch, in_eom_mode=Q_eom) + QS_rest")
     rep.check(m3 is not None, "FLOW", "phase_jump_buffer|plus-fall_time", "the last pulse's fall time is added", "the buffer no longer adds the last pulse's fall time (in the mode the channel is in) to the phase-jump time", where)
@@ -59,12 +71,20 @@ def run(E: Engine, rep: Report, tier: str) -> dict:
     same_phase = bool(fts) and bool(xs)
     if same_phase:
         x0 = xs[0]
-        if x0[0] == "call" and x0[1][0] == "name" and x0[1][1] in mn.nested and len(x0[2]) == 1:
-            # the stored phase is computed by a local function (too large to be inlined at that site): use its own
-            # symbolic value with the parameter as the metavariable
+        h = None
+        if x0[0] == "call" and x0[1][0] == "name" and x0[1][1] in mn.nested:
             h = mn.nested[x0[1][1]]
-            par = h.params[0]
-            xpat = sym.subst(S(E, h).ret, lambda t: ("name", "Q_t") if t == ("name", par) else None)
+        elif x0[0] == "call" and x0[1][0] == "attr" and x0[1][1] == ("name", "self") and x0[1][2].startswith("_") and mn.cls is not None and x0[1][2] in mn.cls.methods:
+            h = mn.cls.methods[x0[1][2]][0]
+        if h is not None and not x0[3]:
+            # the stored phase is computed by a local function / private method (too large to be inlined at that
+            # site): use its own symbolic value; small arguments are substituted, the large one (the time at which
+            # the drift is evaluated) becomes the metavariable
+            pars = [p_ for p_ in h.params if p_ not in ("self", "cls")]
+            bind = {}
+            for p_, a_ in zip(pars, x0[2]):
+                bind[("name", p_)] = a_ if sym.size(a_, 8) <= 6 else ("name", "Q_t")
+            xpat = sym.subst(S(E, h).ret, lambda t: bind.get(t))
         else:
             xpat = sym.subst(x0, lambda t: (t[0], t[1], (("name", "Q_t"),), t[3]) if len(t) == 4 and t[0] == "call" and isinstance(t[1], tuple) and len(t[1]) == 3 and t[1][0] == "attr" and t[1][2] == "calc_phase_drift" else None)
         for l in fts:
@@ -81,7 +101,7 @@ def run(E: Engine, rep: Report, tier: str) -> dict:
     if full is not None:
         for m in all_of(ti, "max(Q_a, Q_b)"):
             for x, y in ((m["Q_a"], m["Q_b"]), (m["Q_b"], m["Q_a"])):
-                if has(x, BUF) is not None and mentions(y, "phase_barrier_ts") and has(y, BUF) is None:
+                if has_buf(x) is not None and mentions(y, "phase_barrier_ts") and has_buf(y) is None:
                     ok = True
     rep.check(ok, "FLOW", "make_next_pulse_slot|delay=max(conflict,buffer)", "delay = max(conflict delay, phase-jump buffer)", "the inserted delay is no longer the max of the conflict delay (phase barriers, other channels) and the phase-jump buffer", where)
     ok = full is not None and is_(full["Q_ls"], "Q__.last_pulse_slot(ignore_detuned_delay=True)") is not None and full["Q_lp"] == ("attr", full["Q_ls"], "type")
